@@ -17,6 +17,8 @@ reaches the rules in the same shape:
                                       target read on the right-hand side)
   K8  a = b = CONST               ->  a = CONST; b = CONST
   K11 k = c; for x in IT: BODY; k += 1  ->  for k, x in enumerate(IT, c)
+  K14 np.f(a, out=x)   (statement) ->  x = np.f(a, out=x)  (NumPy returns
+                                      its out array)
   K13 for x in E: yield x         ->  yield from E       (x not used
                                       elsewhere)
   K12 k = a; while k < N [and C]: BODY; k += s  ->  for k in range(a, N, s):
@@ -759,6 +761,23 @@ class Canon(ast.NodeTransformer):
     def visit_Expr(self, node):
         self.generic_visit(node)
         v = node.value
+        # K14  np.f(a, b, out=x)  (statement)  ->  x = np.f(a, b, out=x)
+        # (NumPy functions return their ``out`` array)
+        if isinstance(v, ast.Call):
+            root = v.func
+            while isinstance(root, ast.Attribute):
+                root = root.value
+            outs = [k for k in v.keywords if k.arg == "out"
+                    and isinstance(k.value, ast.Name)]
+            if isinstance(root, ast.Name) and root.id in ("np", "numpy") \
+                    and isinstance(v.func, ast.Attribute) and len(outs) == 1:
+                new = ast.Assign(
+                    targets=[ast.Name(id=outs[0].value.id, ctx=ast.Store())],
+                    value=v)
+                ast.copy_location(new, node)
+                ast.fix_missing_locations(new)
+                self.applied["K14"] = self.applied.get("K14", 0) + 1
+                return new
         if isinstance(v, ast.Call) and isinstance(v.func, ast.Attribute) \
                 and v.func.attr == "extend" and len(v.args) == 1 and \
                 not v.keywords and isinstance(
